@@ -7,7 +7,15 @@ EXTRACTION_RULES = [
     "T4 `impl Iterator for X` extracted as inherent impl; `Self::Item` replaced by the declared associated type",
     "T5 std provided methods (Iterator::find/find_map) replaced by inherent shims with the std default loop body, verified against next()",
     "T6 #[derive(Clone)] replaced by an external_body clone with `ensures r == *self`",
+    "T3b closure parameters that are patterns: `|(a, b)| e` -> `|p: T| { let (a, b) = p; e }`",
     "T8 leaf types whose contents no unit reads are opaque external types",
+    "T8b one field type (`Args.items: Box<dyn ExactSizeIterator<..>>`) replaced in the struct declaration by an opaque stand-in type with one assumed operation",
+    "T9 the closure literal of construct!(a, b) / (a, b, c) is cut out of rustc's own macro expansion of a client crate",
+    "T10 #[cfg(feature = ..)] on fn parameters, call arguments and fields is evaluated by the extractor for the configuration being generated",
+    "T11 `for PAT in EXPR { B }` -> `{ let mut it = EXPR [or IntoIterator::into_iter(EXPR)]; loop { let PAT = match it.next() { Some(x) => x, None => break }; B } }` (the Rust reference's desugaring) where the unit says so",
+    "T11b reference patterns in a `for` binder: the reference is bound and `let x = *r;` opens the body",
+    "T12 byte-string literals written as array literals of the same bytes (same value, same type &[u8; N])",
+    "`subst`: declared textual substitutions inside type/const declarations only (T8b; `&str` -> `&'static str` in a const)",
     "trait impls: only the fns named by a unit are extracted; every dropped sibling fn is listed under extraction_drops",
 ]
 
@@ -223,3 +231,22 @@ PROPS["C16"]["claim"] = PROPS["C16"]["explanation"] = (
     "text: `\\&` before `.`/`'` at a line start, backslash and dash escaped, apostrophe replaced), and from that table: user text never puts `.` or `'` at the start of an output line, the line-start flag is set after every newline written, "
     "a request argument never contains a newline (lemmas lemma.C16.*; defect D6 and seeded change C16-m1 fail these obligations). html style transitions (change_style) close/open tags in nesting order for all 8x8 style pairs (Kani, complete for that function).")
 PROPS["C16"]["technique"] = "Verus proofs of extract_sections against `levels` and of escape() against the roff escaping table (docgen configuration) + Kani model checking of change_style over its full domain"
+
+# ---- C18 after ParseFlag::eval / take_argument came under contract
+prop("C18", "proof",
+     "the environment fallback is proved on the real bodies (default feature set): ParseFlag::eval and ParseArgument::take_argument refine flag_rel / arg_rel for every item list, ledger, scope, "
+     "name set and every environment (the environment is an uninterpreted function env_var from variable names to values): an item on the line always wins and the environment is not even "
+     "consulted for the result; otherwise the value of the FIRST declared variable that is set is used (env_value: declaration order), for flags `present`; otherwise the default / a catchable "
+     "Missing or NoEnv error, with the state untouched. Only variables the parser declares are read (the result is a function of env_var on `named.env`). "
+     "`env.iter().find_map(std::env::var_os)` is verified through an assumed spec of slice::Iter::find_map and of var_os. "
+     "The same two functions are checked again, independently and with completion compiled in, by the bounded Kani units K10 (std::env::var_os stubbed nondeterministically).",
+     ["conversion/validation of the variable's value (shared with typed values: ParseArgument::eval + parse_os_str, uninterpreted)",
+      "the autocomplete text of the two functions (assumed there; K10 bounded)",
+      "ParseCommand / positional items have no environment fallback (nothing to check)",
+      "std::env::var_os itself, and that the environment does not change during a run"],
+     note=VERUS_NOTE,
+     technique="Verus proof of ParseFlag::eval and ParseArgument::take_argument against flag_rel/arg_rel over an uninterpreted environment + Kani bounded model checking (K10) with std::env::var_os stubbed")
+PROPS["C06"]["claim"] = PROPS["C06"]["explanation"] = PROPS["C06"]["explanation"] + (
+    " The environment branch is no longer assumed: take_argument / ParseFlag::eval are proved to report absence (Missing/NoEnv, catchable) only when the item is neither on the line nor set through a declared variable.")
+PROPS["C12"]["claim"] = PROPS["C12"]["explanation"] = PROPS["C12"]["explanation"] + (
+    " The item a flag/argument is listed as is built from its first short and first long name, its first variable, its metavariable and help (ShortLong::try_from, NamedArg::flag_item, ParseArgument::item: real bodies).")
